@@ -4,7 +4,7 @@ From Coq Require Import List Arith Bool NArith.
 From GV Require Import Base.Result Gen.TokenTypes Gen.Defs Model.Parser Spec.Layout Spec.LayoutSim
   Proofs.C03.Bounded4 Proofs.C18.Bounded Proofs.C18.Sim Proofs.C18.Trim Proofs.C18.Main
   Proofs.C18.Insert Proofs.C18.Always.
-From GV Require Import Spec.RefTable Spec.Pratt Spec.Chains Proofs.C18.ViaPratt.
+From GV Require Import Spec.RefTable Spec.Pratt Spec.Chains Proofs.C18.ViaPratt Proofs.C18.ViaPrattParens.
 Import ListNotations.
 
 (* The parser model takes a list of token TYPES: the text of a whitespace run, of an
@@ -286,4 +286,49 @@ Proof.
   - apply C18_whitespace_where_allowed_operator_expressions; [reflexivity|]. left. vm_compute. eexists; reflexivity.
   - destruct (pratt (ex_vp_pre ++ ex_vp_post)) as [t|] eqn:E; [|vm_compute in E; discriminate E].
     exact (C18_parens_operator_expressions _ t E).
+Qed.
+
+(* (b) continued: round brackets around ONE OPERAND anywhere inside an operator expression of
+   any length.  A value token [v] may be put in brackets wherever it stands -- except an
+   identifier directly after the access operator `.`, where `a.b` (property b) and `a.(b)`
+   (the value of b) differ by design: [after_period pre] says that the last non-whitespace
+   token of [pre] is `.`. *)
+Theorem C18_parens_around_value_operator_expressions :
+  forall (pre post : list token_type) (v : token_type) (t : rtree),
+  is_value_tok v = true -> pratt (pre ++ v :: post) = Some t ->
+  definition_eqb (ref_def v) D_Identifier && after_period pre = false ->
+  exists g g', parse_tree (pre ++ v :: post) = Some g /\
+               parse_tree (pre ++ TT_StartGroup :: v :: TT_EndGroup :: post) = Some g' /\
+               strip_groups g' = strip_groups g.
+Proof. exact parens_value. Qed.
+Print Assumptions C18_parens_around_value_operator_expressions.
+
+(* ... and an already bracketed sub-expression `( e )` may be bracketed once more *)
+Theorem C18_parens_around_group_operator_expressions :
+  forall (pre e post : list token_type) (t te : rtree),
+  pratt (pre ++ TT_StartGroup :: e ++ TT_EndGroup :: post) = Some t -> pratt e = Some te ->
+  exists g g', parse_tree (pre ++ TT_StartGroup :: e ++ TT_EndGroup :: post) = Some g /\
+               parse_tree (pre ++ TT_StartGroup :: TT_StartGroup :: e ++ TT_EndGroup :: TT_EndGroup :: post) = Some g' /\
+               strip_groups g' = strip_groups g.
+Proof. exact parens_group. Qed.
+Print Assumptions C18_parens_around_group_operator_expressions.
+
+(* non-vacuity and the excluded case: in `x * a.b + -c` the operand c (and x, a) may be
+   bracketed; bracketing b changes Property b into the value of b *)
+Definition ex_pv_pre : list token_type :=
+  [TT_Identifier; TT_MultiplicationSign; TT_Identifier; TT_Period; TT_Identifier; TT_Whitespace; TT_PlusSign; TT_Whitespace; TT_Opposite].
+Example C18_ex_parens_value :
+  (exists g g', parse_tree (ex_pv_pre ++ TT_Identifier :: [TT_EmptyApply]) = Some g /\
+                parse_tree (ex_pv_pre ++ TT_StartGroup :: TT_Identifier :: TT_EndGroup :: [TT_EmptyApply]) = Some g' /\
+                strip_groups g' = strip_groups g) /\
+  after_period (firstn 4 ex_pv_pre) = true /\
+  (match parse_tree (firstn 4 ex_pv_pre ++ TT_Identifier :: skipn 5 ex_pv_pre ++ [TT_Identifier]),
+         parse_tree (firstn 4 ex_pv_pre ++ TT_StartGroup :: TT_Identifier :: TT_EndGroup :: skipn 5 ex_pv_pre ++ [TT_Identifier]) with
+   | Some g, Some g' => gtree_eqb (strip_groups g') (strip_groups g)
+   | _, _ => true
+   end) = false.
+Proof.
+  split; [|vm_compute; split; reflexivity].
+  destruct (pratt (ex_pv_pre ++ TT_Identifier :: [TT_EmptyApply])) as [t|] eqn:E; [|vm_compute in E; discriminate E].
+  apply (C18_parens_around_value_operator_expressions ex_pv_pre [TT_EmptyApply] TT_Identifier t); [reflexivity|exact E|reflexivity].
 Qed.
